@@ -204,7 +204,15 @@ Definition c07_call (c : nat) (steps : list step) (c2s : list penv) (ids : list 
                                       if Nat.eqb c d then match r with None => false | Some x => ctx_class dl x || (term && ctx_class false x) end else true
                                   | _ => true
                                   end in
-        let r2 := forallb ok_recv_at (o_events (st_co st)) && forallb ok_after (events_of after) in
+        (* a SendMsg / CloseSend that returns in the step of the cancellation (parked in the transport when it landed, or
+           issued right after it): nil (it had gone through) or the context's error - never EOF / another error unless the
+           stream's terminal envelope had been delivered before *)
+        let ok_send_at (e : cev) := match e with
+                                    | EvSendRet d (Some x) | EvCloseSendRet d (Some x) =>
+                                        if Nat.eqb c d then ctx_class dl x || (term && (terminal_class x || ctx_class false x)) else true
+                                    | _ => true
+                                    end in
+        let r2 := forallb ok_recv_at (o_events (st_co st)) && forallb ok_send_at (o_events (st_co st)) && forallb ok_after (events_of after) in
         let r3 := forallb (fun s => negb (pending_on c (st_co s))) (st :: after) in
         (* resets *)
         let wc_at := so_wc (st_so st) in
